@@ -617,6 +617,33 @@ pub fn check_drop(acc: &mut Acc, c: &DropCase) {
                         }
                     }
                 }
+                // the same right graph OBJECT once more (same place, same allocator position), grown by a
+                // stray vertex with data, into a fresh copy of the left tree: now the merge has to be refused
+                let stray = next.max(h.size() + 1);
+                let again = guarded(|| {
+                    hg.add(stray);
+                    hg.put(stray, &dat(3));
+                    let mut g2: Sodg<N> = Sodg::empty(64);
+                    let mut m2 = Model::new(64, N, false);
+                    for op in &ops {
+                        let _ = crate::hx::step_nocheck(&mut g2, &mut m2, op);
+                    }
+                    g2.merge(&hg, gids[c.left_node], right).map_err(|e| format!("{e:#}"))
+                });
+                acc.bump("right_graphs_grown_and_merged_again", 1);
+                match again {
+                    Err(e) => acc.fail("C12", "drop:panic-second-merge", format!("the right graph, grown by the stray vertex ν{stray} after a first merge, merged again: merge() panicked: {e} {ctx}"), replay.clone()),
+                    Ok(Ok(())) => acc.fail("C12", "drop:ok-although-stray-added-after-first-merge", format!("the same right graph was merged a second time (into a fresh left tree) after it got the stray vertex ν{stray} with data: merge() returned Ok although ν{stray} cannot be reached from ν{right} {ctx}"), replay.clone()),
+                    Ok(Err(msg)) => {
+                        if let Some(mut named) = crate::parse::parse_missed(&msg) {
+                            named.sort_unstable();
+                            named.dedup();
+                            if named != vec![stray] {
+                                acc.fail("C12", "drop:err-names-wrong-vertices-second-merge", format!("the same right graph merged a second time after it got the stray vertex ν{stray}: Err names {named:?} instead of [{stray}]: {msg:?} {ctx}"), replay.clone());
+                            }
+                        }
+                    }
+                }
             } else {
                 acc.fail("C12", "drop:ok-although-vertices-missed", format!("merge() returned Ok although the present vertices {missed:?} of the right graph cannot be reached from ν{right} and were not merged {ctx}"), replay);
             }
